@@ -214,6 +214,8 @@ def join_logical_state(ctx, rule):
                  (keys[3], rng), (keys[4], (OBJ, ()))]
     IN, ks = sd.analyze(cfg, f, variables, init=init, ghost=set(keys),
                         inline=inline)
+    from mstatic.rules import dt as _dt
+    _dt.note(ctx, f, len(init), keys)
     _with_inline(ctx, rule, f, cfg, IN, ks, inline,
                  'the join expression and the counts of inbound tasks')
     # the tasks reported as having triggered the join are those that
@@ -371,6 +373,8 @@ def induced_join_state(ctx, rule):
     init = set(itertools.product((None, OBJ), states, (True, False),
                                  (True, False)))
     IN, ks = sd.analyze(cfg, f, variables, init=init, ghost=set(keys))
+    from mstatic.rules import dt as _dt
+    _dt.note(ctx, f, len(init), keys)
     undecided_tests(ctx, rule, f, cfg, IN, ks, 'the inbound execution, its '
                     'state, the route search and the routing record')
     done = {'SUCCESS', 'ERROR', 'CANCELLED', 'SKIPPED'}
@@ -485,6 +489,8 @@ def possible_route(ctx, rule):
         variables.append((vkey, (True, False)))
     init = set(itertools.product(*[d for _k, d in variables]))
     IN, ks = sd.analyze(cfg, f, variables, init=init, ghost=set(keys))
+    from mstatic.rules import dt as _dt
+    _dt.note(ctx, f, len(init), keys)
     undecided_tests(ctx, rule, f, cfg, IN, ks, 'the inbound tasks, their '
                     'executions and states, the visited set and the '
                     'recursive answer')
